@@ -53,6 +53,19 @@ def combos(tier):
                     else:
                         C.append(dict(base, group="P-384", gids="23,24", shares=1, hrr=1, sizes="10,17000"))
                         C.append(dict(base, group="P-521", gids="29,25", shares=1, hrr=1, resume="ticket", sizes="10"))
+                if ver == "T13":
+                    # record padding on both sides (RFC 8446 5.4), 0-RTT data from the independent client (which sends a
+                    # compatibility ChangeCipherSpec between ClientHello and early data), and a second connection restricted to a
+                    # suite of the other hash (the ticket cannot be used: full handshake, not a failure)
+                    for pad in (512, 4096):
+                        C.append(dict(base, pad=pad, sizes="1,300,16384,20000"))
+                    C.append(dict(base, pad=1024, resume="ticket", sizes="5,17000"))
+                    if role == "server":
+                        for en in (1, 100, 5000):
+                            C.append(dict(base, resume="ticket", early=en, sizes="5,300"))
+                    other = [(i2, n2) for (i2, n2, v2, k2) in SUITES if "T13" in v2 and k2 == key and (("SHA384" in n2) != ("SHA384" in oname))]
+                    if other:
+                        C.append(dict(base, resume="ticket", suite2=hex(other[0][0]), oname2=other[0][1], sizes="5"))
                 sal = (SIGALGS13 if ver == "T13" else SIGALGS12 if ver == "T12" and ecdhe else {}).get(key, [])
                 certsig = {("T13", "rsa"): "rsa_pkcs1_sha256", ("T13", "ec"): "ecdsa_secp256r1_sha256", ("T12", "rsa"): "RSA+SHA256", ("T12", "ec"): "ECDSA+SHA256"}.get((ver, key), "")
                 for sa in sal:
@@ -105,8 +118,8 @@ def run(tier, seed):
     known = runner.load_known(prop); known_hit = {}
     for ln in v["rejects"]:
         i, c = idx[ln]; d = json.loads(lines[ln - 1])
-        sig = {k: str(c.get(k, "")) for k in ("role", "ver", "oname", "key", "cauth", "resume", "group", "sigalgs")}
-        sig["obs"] = "done=%s odone=%s mres=%s ores=%s dataok=%s odataok=%s mver=%s ocipher=%s" % (d["done"], d["odone"], d["mres"], d["ores"], d["dataok"], d["odataok"], d["mver"], d["ocipher"])
+        sig = {k: str(c.get(k, "")) for k in ("role", "ver", "oname", "key", "cauth", "resume", "group", "sigalgs", "pad", "early", "oname2")}
+        sig["obs"] = "done=%s odone=%s mres=%s ores=%s dataok=%s odataok=%s mver=%s ocipher=%s" % (d["done"], d["odone"], d["mres"], d["ores"], d["dataok"], d["odataok"], d["mver"], d["ocipher"]) + (" earlyok=%s oearly=%s" % (d.get("earlyok"), d.get("oearly")) if c.get("early") else "")
         k = runner.match_known(sig, known)
         if k:
             known_hit[k["id"]] = k; continue
